@@ -216,12 +216,17 @@ static MPI_Datatype t_parse(int *derived) {
         int c = (int)t_num(); t_expect(','); int b = (int)t_num(); t_expect(','); long long st = t_num(); t_expect(','); in = t_inner();
         if (!terr) { if (name[0] == 'v') PMPI_Type_vector(c, b, (int)st, in, &out); else PMPI_Type_create_hvector(c, b, (MPI_Aint)st, in, &out); }
     } else if (!strcmp(name, "idx") || !strcmp(name, "hidx") || !strcmp(name, "struct")) {
-        int bl[256]; MPI_Aint dp[256]; int n = t_pairs(bl, dp, 256); t_expect(','); in = t_inner();
+        /* number of pairs = number of ':' before the ',' that ends the list */
+        int maxp = 1; for (const char *q = tp; *q && *q != ','; q++) if (*q == ';') maxp++;
+        int *bl = malloc(sizeof(int) * maxp), *d = malloc(sizeof(int) * maxp); MPI_Aint *dp = malloc(sizeof(MPI_Aint) * maxp);
+        MPI_Datatype *ts = malloc(sizeof(MPI_Datatype) * maxp);
+        int n = t_pairs(bl, dp, maxp); t_expect(','); in = t_inner();
         if (!terr) {
-            if (!strcmp(name, "idx")) { int d[256]; for (int j = 0; j < n; j++) d[j] = (int)dp[j]; PMPI_Type_indexed(n, bl, d, in, &out); }
+            if (!strcmp(name, "idx")) { for (int j = 0; j < n; j++) d[j] = (int)dp[j]; PMPI_Type_indexed(n, bl, d, in, &out); }
             else if (!strcmp(name, "hidx")) PMPI_Type_create_hindexed(n, bl, dp, in, &out);
-            else { MPI_Datatype ts[256]; for (int j = 0; j < n; j++) ts[j] = in; PMPI_Type_create_struct(n, bl, dp, ts, &out); }
+            else { for (int j = 0; j < n; j++) ts[j] = in; PMPI_Type_create_struct(n, bl, dp, ts, &out); }
         }
+        free(bl); free(d); free(dp); free(ts);
     } else if (!strcmp(name, "sub")) {
         int sz[16], ss[16], st[16];
         int n = t_list(sz, 16); t_expect(';'); t_list(ss, 16); t_expect(';'); t_list(st, 16); t_expect(','); in = t_inner();
